@@ -85,7 +85,7 @@ def close(a, b, tol=1e-10):
 
 def run(chk):
     quick = chk.tier == "quick"
-    chk.prove()
+    chk.prove(extra_props=["Properties_C06_current.v"])
     chk.trusted += ["Open MPI 4.1.4 / Boost.MPI 1.83 semantics as modelled (collectives match by call order per communicator; "
                     "comm.split with default key keeps world rank order)", "harness/h_c06.cpp, mpiexec with oversubscription; hangs are observed by a hard timeout"]
     chk.assume += ["liveness is proved for the protocol model under weak fairness; the real-time behaviour of the MPI library and the OS is outside any theorem"]
